@@ -126,18 +126,25 @@ func c17NoAliasing(r *core.Report) {
 		}
 		return false
 	}
-	// (a) getRangeFromCache: every returned non-nil slice derived from rc.cache is a copy
+	// (a) getRangeFromCache: no result aliases the cached storage. A value aliases it when it is read from a map field of
+	// the cache object, or is a field / sub-slice / composite of such a value, or comes out of a helper of the package that
+	// returns such a value; a copying call (clone, bytes.Clone, a make+copy helper) ends the aliasing.
 	if f := r.Anchor(rule, "range-cache.(*RangeCache).getRangeFromCache"); f != nil {
-		info := f.Pkg.TypesInfo
 		g := p.Graph(f)
+		an := &aliasAnalysis{p: p, isCopy: isCopyExpr, memo: map[string]bool{}}
+		bad := an.aliasingReturns(f, nil, 0)
+		n := 0
 		for i, rn := range g.Returns() {
 			res := returnResults(rn)
-			if len(res) == 0 || core.IsNil(info, res[0]) {
+			if len(res) == 0 || core.IsNil(f.Pkg.TypesInfo, res[0]) {
 				continue
 			}
-			ok := isCopyExpr(info, res[0])
-			r.Check(ok, rule, fmt.Sprintf("%s#return@%d", f.Key, i), pos(r, rn.Ast), "the slice handed to the caller is a fresh copy of the cached bytes",
+			n++
+			r.Check(!bad[rn.Ast], rule, fmt.Sprintf("%s#return@%d", f.Key, i), pos(r, rn.Ast), "what is handed to the caller does not alias the cached bytes (it is a fresh copy)",
 				"a slice of the cached storage itself is returned: a caller that modifies its buffer (or a later cache update) changes what other readers get")
+		}
+		if n == 0 {
+			r.Undecided(rule, f.Key+"#returns", posP(r, f.Pos()), "no value-carrying return found")
 		}
 	}
 	// (b) GetRange miss closure: what is stored is not the slice returned to the caller
@@ -391,7 +398,7 @@ func c17Refusal(r *core.Report) {
 			ok := false
 			for _, fc := range g.FactsAt(rn) {
 				be, isBin := core.Unparen(fc.Expr).(*ast.BinaryExpr)
-				if isBin && fc.Tag == nil && mentionsLenOf(info, fc.Expr, f.ParamObj(0)) && ((be.Op == token.LSS && !fc.Truth) || (be.Op == token.GEQ && fc.Truth) || (be.Op == token.EQL && fc.Truth) || (be.Op == token.NEQ && !fc.Truth)) {
+				if isBin && fc.Tag == nil && mentionsLenOfVia(f, fc.Expr, f.ParamObj(0)) && ((be.Op == token.LSS && !fc.Truth) || (be.Op == token.GEQ && fc.Truth) || (be.Op == token.EQL && fc.Truth) || (be.Op == token.NEQ && !fc.Truth)) {
 					ok = true
 				}
 			}
@@ -668,4 +675,191 @@ func mentionsLenOf(info *types.Info, e ast.Expr, o types.Object) bool {
 		return true
 	})
 	return found
+}
+
+// mentionsLenOfVia: e mentions len(o), or a local of f whose only definition is len(o) (wantLen := len(p)).
+func mentionsLenOfVia(f *core.Func, e ast.Expr, o types.Object) bool {
+	info := f.Pkg.TypesInfo
+	if mentionsLenOf(info, e, o) {
+		return true
+	}
+	found := false
+	ast.Inspect(e, func(m ast.Node) bool {
+		if id, ok := m.(*ast.Ident); ok && !found {
+			if v, isVar := info.Uses[id].(*types.Var); isVar && !v.IsField() && !isParamOf(f.Root(), v) {
+				if d := singleDef(f.Root(), v); d != nil && mentionsLenOf(info, d, o) {
+					if c, isCall := core.Unparen(d).(*ast.CallExpr); isCall && core.BuiltinName(info, c) == "len" {
+						found = true
+					}
+				}
+			}
+		}
+		return !found
+	})
+	return found
+}
+
+// aliasAnalysis decides which returns of a function hand out a value that aliases storage owned by the receiver's map
+// fields (the cache).
+type aliasAnalysis struct {
+	p      *core.Prog
+	isCopy func(info *types.Info, e ast.Expr) bool
+	memo   map[string]bool
+}
+
+// aliasingReturns returns the return statements of fn one of whose results aliases the cache, given the parameters that
+// are already aliases (taintedParams).
+func (a *aliasAnalysis) aliasingReturns(fn *core.Func, taintedParams map[int]bool, depth int) map[ast.Node]bool {
+	out := map[ast.Node]bool{}
+	if fn.Body == nil || depth > 3 {
+		return out
+	}
+	info := fn.Pkg.TypesInfo
+	recv := types.Object(nil)
+	if rv := fn.Root().RecvObj(); rv != nil {
+		recv = rv
+	}
+	T := map[types.Object]bool{}
+	for i := range taintedParams {
+		if po := fn.ParamObj(i); po != nil {
+			T[po] = true
+		}
+	}
+	isCacheMap := func(e ast.Expr) bool {
+		sel, ok := core.Unparen(e).(*ast.SelectorExpr)
+		if !ok || recv == nil || core.ObjOf(info, sel.X) != recv {
+			return false
+		}
+		_, isMap := info.TypeOf(sel).Underlying().(*types.Map)
+		return isMap
+	}
+	var alias func(e ast.Expr) bool
+	alias = func(e ast.Expr) bool {
+		e = core.Unparen(e)
+		switch x := e.(type) {
+		case *ast.Ident:
+			return T[info.Uses[x]]
+		case *ast.SelectorExpr:
+			return alias(x.X)
+		case *ast.SliceExpr:
+			return alias(x.X)
+		case *ast.IndexExpr:
+			return isCacheMap(x.X)
+		case *ast.StarExpr:
+			return alias(x.X)
+		case *ast.UnaryExpr:
+			return x.Op == token.AND && alias(x.X)
+		case *ast.CompositeLit:
+			for _, el := range x.Elts {
+				v := el
+				if kv, ok := el.(*ast.KeyValueExpr); ok {
+					v = kv.Value
+				}
+				if alias(v) {
+					return true
+				}
+			}
+			return false
+		case *ast.CallExpr:
+			if tv, ok := info.Types[x.Fun]; ok && tv.IsType() && len(x.Args) == 1 {
+				return alias(x.Args[0]) // conversion
+			}
+			if a.isCopy(info, x) {
+				return false
+			}
+			if b := core.BuiltinName(info, x); b != "" {
+				if b == "append" && len(x.Args) > 0 {
+					return alias(x.Args[0])
+				}
+				return false
+			}
+			fo := core.Callee(info, x)
+			if fo == nil {
+				return false
+			}
+			h := a.p.ByObj[fo.Origin()]
+			if h == nil || h.Body == nil || h.Pkg != fn.Pkg {
+				return false
+			}
+			tp := map[int]bool{}
+			key := h.Key + "|"
+			for ai, arg := range x.Args {
+				if alias(arg) {
+					tp[ai] = true
+					key += fmt.Sprint(ai, ",")
+				}
+			}
+			if v, ok := a.memo[key]; ok {
+				return v
+			}
+			a.memo[key] = false // recursion guard
+			v := len(a.aliasingReturns(h, tp, depth+1)) > 0
+			a.memo[key] = v
+			return v
+		}
+		return false
+	}
+	for changed := true; changed; {
+		changed = false
+		mark := func(l ast.Expr) {
+			if id, ok := core.Unparen(l).(*ast.Ident); ok {
+				o := info.Defs[id]
+				if o == nil {
+					o = info.Uses[id]
+				}
+				if o != nil && !T[o] && o != recv {
+					T[o] = true
+					changed = true
+				}
+			}
+		}
+		ast.Inspect(fn.Body, func(m ast.Node) bool {
+			switch x := m.(type) {
+			case *ast.FuncLit:
+				return x == fn.Lit
+			case *ast.AssignStmt:
+				for i, l := range x.Lhs {
+					var rhs ast.Expr
+					if len(x.Rhs) == len(x.Lhs) {
+						rhs = x.Rhs[i]
+					} else if len(x.Rhs) == 1 && i == 0 {
+						rhs = x.Rhs[0] // v, ok := m[k]  /  v, err := helper()
+					}
+					if rhs != nil && alias(rhs) {
+						mark(l)
+					}
+				}
+			case *ast.RangeStmt:
+				if isCacheMap(x.X) || alias(x.X) {
+					if x.Value != nil {
+						mark(x.Value)
+					}
+				}
+			case *ast.ValueSpec:
+				for i, nm := range x.Names {
+					if i < len(x.Values) && alias(x.Values[i]) {
+						if o := info.Defs[nm]; o != nil && !T[o] {
+							T[o] = true
+							changed = true
+						}
+					}
+				}
+			}
+			return true
+		})
+	}
+	ast.Inspect(fn.Body, func(m ast.Node) bool {
+		if l, isLit := m.(*ast.FuncLit); isLit && l != fn.Lit {
+			return false
+		}
+		if rs, ok := m.(*ast.ReturnStmt); ok {
+			for _, e := range rs.Results {
+				if alias(e) {
+					out[rs] = true
+				}
+			}
+		}
+		return true
+	})
+	return out
 }
